@@ -236,7 +236,7 @@ impl Decoded {
             }
             let hh = hl.max(hr) + 1;
             if h + 1 != hh {
-                return Err(format!("record {i} height register {h}, true height {hh}"));
+                return Err(format!("record {i} stores height register {h} but its subtree has {hh} levels (register should be {})", hh - 1));
             }
             Ok(hh)
         }
